@@ -58,6 +58,9 @@ inductive Stmt where
   | count (c : Nat)
   | closeStream (s : Nat)
   | exitproc (k : Nat)
+  | enter                 -- the statements up to the matching `leave` run inside one child fiber of the task (try / defer / coro body)
+  | leave
+  | goSelf                -- (ev/go (fiber/root)): the running task schedules itself
   deriving Repr, Inhabited
 
 structure IFiber where
@@ -132,7 +135,7 @@ def showVal (s : IS) : Val → String
   | .err 0 => "\"timeout\""
   | .err 1 => "\"deadline_expired\""
   | .err 2 => "\"cannot_write_to_closed_channel\""
-  | .err n => "\"" ++ nameOf s.msgs (n - 3) ++ "\""
+  | .err n => if n ≥ 1000 then s!"\"command_failed_with_non-zero_exit_code_{n - 1000}\"" else "\"" ++ nameOf s.msgs (n - 3) ++ "\""
   | .int n => toString n
   | .buf n => nameOf s.bufs n
 
@@ -179,7 +182,7 @@ def dump (s : IS) (tag : String) : IS := Id.run do
 
 def addTimerH (s : IS) (f : Nat) (kind : TKind) (us : Nat) : IS :=
   let t : Timer := { when := s.w.now + deltaMs s.cfg us, fiber := f, schedId := (s.w.fibers f).schedId, kind := kind,
-                     start := s.w.now, durUs := us }
+                     start := s.w.now, durUs := us, epoch := (s.w.fibers f).epoch }
   { s with heap := heapAdd s.heap t }
 
 /-! ### streams and processes: the callbacks of ev.c with the kernel's answers as input -/
@@ -189,7 +192,7 @@ def setSop (s : IS) (f : Nat) (o : Option SOp) : IS :=
 
 /-- `janet_schedule(fiber, v)` resp. `janet_cancel(fiber, v)` followed by `janet_async_end(fiber)` inside a callback -/
 def complete (s : IS) (f sid : Nat) (v : Val) (isErr : Bool) : IS :=
-  let w := asyncEnd (schedule s.cfg s.w f v isErr (s.w.fibers f).schedId s.w.now (.stream sid)) f
+  let w := asyncEnd (schedule s.cfg s.w f v isErr (s.w.fibers f).schedId s.w.now (.stream sid) (s.w.fibers f).listenEpoch) f
   setSop { s with w := w } f none
 
 def internMsg (s : IS) (m : String) : IS × Nat :=
@@ -368,9 +371,15 @@ def startWait (s : IS) (f : Nat) : Wait → IS × Outcome
       let s := { s with fibers := s.fibers.modify f fun fb => { fb with bodies := b :: fb.bodies } }
       startWait s f inner
 
+def isMarker : Stmt → Bool
+  | .enter => true
+  | .leave => true
+  | _ => false
+
+/-- labels count the statements of the fiber in program order, block markers excluded (harness/C07/gen.py emit_stmts) -/
 def label (s : IS) (f : Nat) : String :=
   let fb := s.fibers[f]!
-  fb.name.toLower ++ toString fb.pc
+  fb.name.toLower ++ toString ((fb.prog.take fb.pc).filter (fun st => !isMarker st)).length
 
 /-- the statement at `pc` is complete with result `v`: log it, finish its with-deadline bodies, advance -/
 def finishStmt (s : IS) (f : Nat) (v : Val) (isErr : Bool) : IS :=
@@ -408,10 +417,14 @@ def runFiber (s : IS) (f : Nat) : Nat → IS
           -- closing the child's stdin makes it exit; verif/settle waits until the waiter thread has posted the completion
           let s := emit s s!"L {s.w.now} {fname s f} :settle true"
           runFiber (next { s with pendingExits := s.pendingExits ++ [k] }) f fuel
+      | .enter => runFiber (next { s with w := step s.cfg s.w (.childEnter f) }) f fuel
+      | .leave => runFiber (next { s with w := step s.cfg s.w (.childLeave f) }) f fuel
+      | .goSelf => runFiber (next { s with w := step s.cfg s.w (.spawn f) }) f fuel
 
 /-- a task was executed for fiber `f` -/
 def resume (s : IS) (f : Nat) (v : Val) (isErr : Bool) : IS :=
-  let s := setSop s f none        -- janet_fiber_did_resume -> janet_async_end frees the operation's state
+  -- janet_fiber_did_resume -> janet_async_end frees the operation's state (when the model's runTask detached the listener)
+  let s := if (s.w.fibers f).listener.isNone then setSop s f none else s
   let fb := s.fibers[f]!
   if !fb.started then
     runFiber { s with fibers := s.fibers.modify f fun fb => { fb with started := true } } f 10000
@@ -440,7 +453,8 @@ def runPhase (s : IS) : Nat → IS
       if w'.log.length == s.w.log.length then runPhase { s with w := w' } fuel
       else
         let s := { s with w := w' }
-        let s := emit s s!"R {s.w.now} {fname s t.fiber} {(s.w.log.head?.map (·.schedIdAtRun)).getD 0} {showVal s t.value}"
+        -- the harness logs fiber->sched_id as janet_continue_signal is entered, i.e. after the run phase's own bump
+        let s := emit s s!"R {s.w.now} {fname s t.fiber} {(s.w.fibers t.fiber).schedId} {showVal s t.value}"
         runPhase (resume s t.fiber t.value t.isErr) fuel
 
 /-- poll phase: drop timeouts that are no longer needed, then let the (virtual) clock jump to the next deadline -/
